@@ -167,6 +167,10 @@ pub enum Expect {
         output: bool,
         output_all: bool,
         overwrite: bool,
+        /// Some(answers) when neither -y nor -n was given and the scripted answers are not all the
+        /// same: question k of the invocation gets answers[k % len] (`overwrite` is then true,
+        /// i.e. permissive, wherever a single flag is all that can be used)
+        pattern: Option<Vec<bool>>,
         /// root-relative project dir
         dir: String,
         all_steps: bool,
@@ -238,8 +242,10 @@ pub fn predict(snap: &Snap, inv: &Inv, answer_yes: bool, oracle: &mut Oracle, mo
                     TagRes::Unjudgeable => return Pred::Unjudgeable,
                 }
             }
-            let ow = overwrite.unwrap_or(answer_yes);
-            Pred::Judged(Expect::Seq { tags, output: *output, output_all: *output_all, overwrite: ow, dir, all_steps: *all_steps })
+            let pat: Vec<bool> = inv.answer.chars().map(|c| c == 'y').collect();
+            let mixed = overwrite.is_none() && pat.iter().any(|b| *b) && pat.iter().any(|b| !*b);
+            let ow = overwrite.unwrap_or(answer_yes || mixed);
+            Pred::Judged(Expect::Seq { tags, output: *output, output_all: *output_all, overwrite: ow, pattern: if mixed { Some(pat) } else { None }, dir, all_steps: *all_steps })
         }
         Cmd::Edit { .. } => Pred::Unjudgeable,
         Cmd::ConvTag { path, tag, recurse, output } => {
@@ -335,6 +341,59 @@ fn tail(s: &str) -> String {
     }
 }
 
+/// the 40 answer lines scripted on stdin: the letters of `answer` ("y", "n", or a pattern such as
+/// "nyy"), repeated
+pub fn answer_lines(answer: &str) -> Vec<String> {
+    let pat: Vec<char> = if answer.is_empty() { vec!['n'] } else { answer.chars().collect() };
+    (0..40).map(|k| pat[k % pat.len()].to_string()).collect()
+}
+
+/// the paths the tool asked an overwrite question about, in the order asked (the text between
+/// `:: File ` and ` already exists`, which is a Rust debug string, un-escaped)
+fn asked_paths(stdout: &str) -> Vec<String> {
+    let mut v = Vec::new();
+    let mut rest = stdout;
+    while let Some(i) = rest.find(":: File \"") {
+        let after = &rest[i + 9..];
+        let Some(j) = after.find("\" already exists, do you wish to overwrite it?") else { break };
+        let raw = &after[..j];
+        let mut out = String::new();
+        let mut it = raw.chars().peekable();
+        while let Some(c) = it.next() {
+            if c != '\\' {
+                out.push(c);
+                continue;
+            }
+            match it.next() {
+                Some('u') => {
+                    let mut hex = String::new();
+                    if it.peek() == Some(&'{') {
+                        it.next();
+                        for h in it.by_ref() {
+                            if h == '}' {
+                                break;
+                            }
+                            hex.push(h);
+                        }
+                    }
+                    if let Some(ch) = u32::from_str_radix(&hex, 16).ok().and_then(char::from_u32) {
+                        out.push(ch);
+                    }
+                }
+                Some('n') => out.push('\n'),
+                Some('t') => out.push('\t'),
+                Some('r') => out.push('\r'),
+                Some('0') => out.push('\0'),
+                Some(o) => out.push(o),
+                None => {}
+            }
+        }
+        v.push(out);
+        rest = &after[j..];
+    }
+    v
+}
+
 fn check_stdout_seq(stdout: &str, tag: &str, stages: &[Vec<String>], all_steps: bool) -> Result<(), String> {
     let lines: Vec<&str> = stdout.lines().collect();
     let header = format!("OUTPUT - {tag}");
@@ -390,7 +449,7 @@ fn check_strict(e: &Expect, o: &InvOut, before: &Snap, after: &Snap, inv_i: usiz
             }
             None
         }
-        Expect::Seq { tags, output, output_all, overwrite, dir, all_steps } => {
+        Expect::Seq { tags, output, output_all, overwrite, pattern, dir, all_steps } => {
             if o.out.code != Some(0) {
                 return Some(Fail { clause: "exit-status", inv: inv_i, detail: format!("exit {:?} signal {:?}, expected 0; stdout {:?} stderr {:?}", o.out.code, o.out.signal, tail(&o.out.stdout), tail(&o.out.stderr)) });
             }
@@ -435,6 +494,16 @@ fn check_strict(e: &Expect, o: &InvOut, before: &Snap, after: &Snap, inv_i: usiz
                     return Some(Fail { clause: "conservation", inv: inv_i, detail: format!("unexpected new path {p}") });
                 }
             }
+            // with mixed answers: which question concerned which file, and what was answered
+            let asked: Vec<(String, bool)> = match pattern {
+                Some(pat) => asked_paths(&o.out.stdout).into_iter().enumerate().map(|(k, p)| (p, pat[k % pat.len()])).collect(),
+                None => Vec::new(),
+            };
+            let decision = |p: &str| -> Option<bool> {
+                // p is root-relative (`proj/out/<tag>/<file>`); the tool names it relative to its own cwd
+                let suffix = &p[dir.len() + 1..];
+                asked.iter().find(|(a, _)| a == suffix || a.ends_with(&format!("/{suffix}"))).map(|(_, d)| *d)
+            };
             for (d, st) in &allowed {
                 if after.get(d) != Some(&None) {
                     return Some(Fail { clause: "missing-output", inv: inv_i, detail: format!("directory {d} was not created; stdout {:?}", tail(&o.out.stdout)) });
@@ -444,7 +513,15 @@ fn check_strict(e: &Expect, o: &InvOut, before: &Snap, after: &Snap, inv_i: usiz
                 for (p, c) in after.iter().filter(|(p, _)| under(p, d)) {
                     let Some(bytes) = c else { return Some(Fail { clause: "conservation", inv: inv_i, detail: format!("unexpected directory {p}") }) };
                     let old = before.get(p);
-                    if old == Some(c) {
+                    if pattern.is_some() && old.is_some() {
+                        match decision(p) {
+                            Some(false) | None if old != Some(c) => {
+                                return Some(Fail { clause: "overwrite-refused-but-changed", inv: inv_i, detail: format!("{p} was overwritten although the question about it was {}; stdout {:?}", if decision(p).is_none() { "never asked" } else { "answered n" }, tail(&o.out.stdout)) });
+                            }
+                            Some(false) | None => continue,
+                            Some(true) => {} // confirmed: must now hold the new words, changed or not
+                        }
+                    } else if old == Some(c) {
                         continue; // untouched (or rewritten identically)
                     }
                     if old.is_some() && !*overwrite {
@@ -472,7 +549,17 @@ fn check_strict(e: &Expect, o: &InvOut, before: &Snap, after: &Snap, inv_i: usiz
                 if new_files > roles {
                     return Some(Fail { clause: "output-file", inv: inv_i, detail: format!("{new_files} new files in {d}, expected at most {roles}") });
                 }
-                if *overwrite || !before.contains_key(d) {
+                if pattern.is_some() && before.contains_key(d) {
+                    // every file the tag writes either existed (then a question was asked about it) or
+                    // is new: questions about files of this directory + new files = files to write
+                    let asked_here = asked.iter().filter(|(a, _)| {
+                        let dd = &d[dir.len() + 1..];
+                        a.starts_with(&format!("{dd}/")) || a.contains(&format!("/{dd}/"))
+                    }).count();
+                    if asked_here + new_files != roles {
+                        return Some(Fail { clause: "missing-output", inv: inv_i, detail: format!("{d}: {asked_here} overwrite question(s) and {new_files} new file(s) for {roles} file(s) to write; stdout {:?}", tail(&o.out.stdout)) });
+                    }
+                } else if *overwrite || !before.contains_key(d) {
                     // every role must now be present with the right content
                     let files: Vec<(&String, &Vec<u8>)> = after.iter().filter(|(p, _)| under(p, d)).filter_map(|(p, c)| c.as_ref().map(|b| (p, b))).collect();
                     if *output_all {
@@ -484,6 +571,15 @@ fn check_strict(e: &Expect, o: &InvOut, before: &Snap, after: &Snap, inv_i: usiz
                         }
                     } else if !files.iter().any(|(_, b)| same_words(b, st.last().unwrap())) {
                         return Some(Fail { clause: "missing-output", inv: inv_i, detail: format!("{d}: no file holding the final words {:?}; stdout {:?}", st.last().unwrap(), tail(&o.out.stdout)) });
+                    }
+                } else if *output_all {
+                    // overwriting declined: a stage's file is either an old one that stayed or a new
+                    // one (whose content was checked above) - but there is one for every stage
+                    for k in 1..=n_stages {
+                        let pre = format!("{k}_");
+                        if !after.iter().any(|(p, c)| under(p, d) && c.is_some() && p.rsplit('/').next().unwrap().starts_with(&pre)) {
+                            return Some(Fail { clause: "missing-output", inv: inv_i, detail: format!("{d}: no file `{k}_*` for stage {k} although declining an overwrite concerns existing files only; stdout {:?}", tail(&o.out.stdout)) });
+                        }
                     }
                 }
             }
@@ -727,9 +823,9 @@ fn run_history_inner(root: &str, scn: &mut Scn, oracle: &mut Oracle, st: &mut St
         }
         let before = cli::snapshot(root);
         let args = inv.cmd.argv();
-        let answers: Vec<String> = (0..40).map(|_| inv.answer.clone()).collect();
+        let answers: Vec<String> = answer_lines(&inv.answer);
         let stdin = cli::stdin_script(&answers);
-        let e = match predict(&before, &inv, inv.answer == "y", oracle, &mut model, &mut probes) {
+        let e = match predict(&before, &inv, inv.answer.starts_with('y'), oracle, &mut model, &mut probes) {
             Pred::Judged(e) => e,
             Pred::Unjudgeable => {
                 st.unjudgeable += 1;
